@@ -1040,19 +1040,34 @@ func segmentStatsWorker(statRes *segresults.StatsResults, mCols map[string]bool,
 }
 
 func addValsToTimeStats(localStats map[string]*structs.SegStats, colName string, latestTs uint64, earliestTs uint64, rawVal interface{}, mcr *segread.MultiColSegmentReader, needLatestOrEarliest bool, blockNum, recNum uint16, qid uint64) {
-	stats.AddSegStatsUNIXTime(localStats, colName, latestTs, rawVal, true)
-	stats.AddSegStatsUNIXTime(localStats, colName, earliestTs, rawVal, false)
-	if needLatestOrEarliest {
-		tsCVal := sutils.CValueEnclosure{}
-		timestampIdx := -1
-		err := mcr.ExtractValueFromColumnFile(timestampIdx, blockNum, recNum, qid, true, &tsCVal)
-		if err != nil {
-			log.Errorf("qid=%d, addValsToTimeStts failed to get timestamp values for dict/non-dict encoded column; col: %v", qid, colName)
-		} else {
-			stats.AddSegStatsLatestEarliestVal(localStats, colName, &tsCVal, rawVal, true)
-			stats.AddSegStatsLatestEarliestVal(localStats, colName, &tsCVal, rawVal, false)
-		}
+	if rawVal == nil {
+		// The event does not have the field: it can provide neither the earliest
+		// nor the latest value (or time) of it.
+		return
 	}
+	if !needLatestOrEarliest {
+		stats.AddSegStatsUNIXTime(localStats, colName, latestTs, rawVal, true)
+		stats.AddSegStatsUNIXTime(localStats, colName, earliestTs, rawVal, false)
+		return
+	}
+
+	// earliest(x)/latest(x): the times are those of the events that have x, not of the block
+	tsCVal := sutils.CValueEnclosure{}
+	timestampIdx := -1
+	err := mcr.ExtractValueFromColumnFile(timestampIdx, blockNum, recNum, qid, true, &tsCVal)
+	if err != nil {
+		log.Errorf("qid=%d, addValsToTimeStts failed to get timestamp values for dict/non-dict encoded column; col: %v", qid, colName)
+		return
+	}
+	recTs, ok := tsCVal.CVal.(uint64)
+	if !ok {
+		log.Errorf("qid=%d, addValsToTimeStts: timestamp of unexpected type %T; col: %v", qid, tsCVal.CVal, colName)
+		return
+	}
+	stats.AddSegStatsUNIXTime(localStats, colName, recTs, rawVal, true)
+	stats.AddSegStatsUNIXTime(localStats, colName, recTs, rawVal, false)
+	stats.AddSegStatsLatestEarliestVal(localStats, colName, &tsCVal, rawVal, true)
+	stats.AddSegStatsLatestEarliestVal(localStats, colName, &tsCVal, rawVal, false)
 
 }
 
